@@ -12,6 +12,9 @@ import (
 
 var stanzaLocals = []string{"iq", "message", "presence"}
 
+// AttrSpaces are the name spaces of generated attributes.
+var AttrSpaces = []string{"urn:a", "urn:a", "urn:b:x", "urn:c:x", "http://example.com/one/meta", "http://example.org/two/meta", "http://example.net/three/"}
+
 type Gen struct {
 	R  *hx.Rand
 	NS string // the stream's content name space
@@ -73,8 +76,18 @@ func (g *Gen) extraAttrs(plainXmlns bool, space string) []MAttr {
 	if g.R.Chance(1, 5) {
 		as = append(as, MAttr{MName{XMLURL, "lang"}, g.pick("en", "de-CH")})
 	}
-	if g.R.Chance(1, 6) {
-		as = append(as, MAttr{MName{"urn:a", g.pick("k", "n")}, "nv"})
+	// attributes in name spaces: encoding/xml derives the prefix from the last
+	// path segment of the URI ("_" for URNs), so siblings carrying urn:a / urn:b:x
+	// or .../one/meta / .../two/meta reuse ONE generated prefix for different
+	// name spaces, and nested elements get numbered ones
+	if g.R.Chance(1, 4) {
+		ns := g.pick(AttrSpaces...)
+		as = append(as, MAttr{MName{ns, g.pick("k", "n")}, g.pick("nv", "v2", "a&b")})
+		if g.R.Chance(1, 3) {
+			if ns2 := g.pick(AttrSpaces...); ns2 != ns {
+				as = append(as, MAttr{MName{ns2, g.pick("k", "n")}, "nw"})
+			}
+		}
 	}
 	if !g.NoQuirks && g.R.Chance(1, 30) {
 		as = append(as, MAttr{MName{"urn:a", "xmlns"}, "v"}) // not a name space declaration
@@ -261,7 +274,10 @@ func (g *Gen) call(concurrent, serve bool) *Call {
 		c.Toks = c.Src
 		return c
 	case k < 8: // Encode
-		form := g.pick("writerto", "marshaler", "tokenreader", "struct", "struct")
+		form := g.pick("writerto", "marshaler", "tokenreader", "struct", "struct", "innerxml")
+		if form == "innerxml" {
+			return g.InnerXMLCall("encode", nil)
+		}
 		t := g.Elem("", form != "struct")
 		c := &Call{Kind: "encode", API: "Encode/" + form, Form: form, Src: t.Tokens(), Expect: t}
 		c.Toks = c.Src
@@ -270,7 +286,10 @@ func (g *Gen) call(concurrent, serve bool) *Call {
 		}
 		return c
 	case k < 11: // EncodeElement
-		form := g.pick("writerto", "marshaler", "tokenreader", "struct", "struct")
+		form := g.pick("writerto", "marshaler", "tokenreader", "struct", "struct", "innerxml")
+		if form == "innerxml" {
+			return g.InnerXMLCall("encodeelement", startOf(g.Elem("", true)))
+		}
 		t := g.Elem("", form != "struct")
 		st := g.Elem("", true)
 		c := &Call{Kind: "encodeelement", API: "EncodeElement/" + form, Form: form, Start: startOf(st), Src: t.Tokens()}
@@ -479,5 +498,175 @@ func (g *Gen) Malformed() *Call {
 		c := &Call{Kind: "tokenwriter", API: "TokenWriter", Src: mut()}
 		c.Toks = c.Src
 		return c
+	}
+}
+
+// ---- marshaled values with hand-written XML text (",innerxml") ----
+
+// InnerXMLCall generates an Encode (start == nil) or EncodeElement call whose
+// value is marshaled by encoding/xml into a top element (name and attributes
+// written by the encoder) around a text written by RenderScoped: attribute
+// prefixes are declared, re-used, re-bound on siblings and shadowed in nested
+// elements in ways the encoder itself never produces. What the value denotes
+// is what encoding/xml's own parser makes of the marshaled text.
+func (g *Gen) InnerXMLCall(kind string, start *MTok) *Call {
+	for {
+		top := g.Elem("", false)
+		if start != nil {
+			var own []MAttr
+			for _, a := range top.Attrs {
+				if a.Name.Local != "m" {
+					own = append(own, a)
+				}
+			}
+			top.Attrs = own
+		}
+		text := RenderScoped(g.R, g.kids(1, false))
+		if c := NewInnerXMLCall(kind, top.Name, top.Attrs, text, start); c != nil {
+			return c
+		}
+	}
+}
+
+// NewInnerXMLCall builds the call; nil if encoding/xml cannot marshal or
+// re-read the value.
+func NewInnerXMLCall(kind string, name MName, attrs []MAttr, text string, start *MTok) *Call {
+	api := map[string]string{"encode": "Encode", "encodeelement": "EncodeElement"}[kind]
+	c := &Call{Kind: kind, API: api + "/innerxml", Form: "innerxml", Text: text, Start: start,
+		Src: []MTok{{Kind: "start", Name: name, Attrs: attrs}, {Kind: "end", Name: name}}}
+	v := goValue(c, c.Form, c.Src, false, false)
+	raw, err := MarshalRaw(v, true)
+	if err != nil {
+		return nil
+	}
+	res, err := MarshalRaw(v, false)
+	if err != nil {
+		return nil
+	}
+	f, ok := ParseForest(res)
+	if !ok || len(f) != 1 {
+		return nil
+	}
+	c.Toks = raw
+	rf, _ := ParseForest(raw)
+	if len(rf) != 1 {
+		return nil
+	}
+	c.Expect = AsWritten(rf[0], f[0])
+	if start != nil {
+		c.Expect = mergeStart(start, c.Expect)
+	}
+	return c
+}
+
+var scopedPrefixes = []string{"p", "q", "_", "meta"}
+
+// RenderScoped writes a forest as XML text choosing attribute prefixes
+// adversarially: a name space already bound in scope is used through the
+// inherited binding half of the time; otherwise a prefix is picked from a
+// small pool and declared on the element itself, which re-binds (shadows) it
+// when an enclosing element bound it to something else and re-uses it on
+// siblings for different name spaces. Element names are never prefixed.
+func RenderScoped(r *hx.Rand, f []*Tree) string {
+	var sb strings.Builder
+	renderScoped(r, &sb, f, map[string]string{})
+	return sb.String()
+}
+
+func escText(s string) string {
+	var b strings.Builder
+	for _, c := range s {
+		switch c {
+		case '<':
+			b.WriteString("&lt;")
+		case '>':
+			b.WriteString("&gt;")
+		case '&':
+			b.WriteString("&amp;")
+		case '"':
+			b.WriteString("&#34;")
+		case '\'':
+			b.WriteString("&#39;")
+		case '\n':
+			b.WriteString("&#xA;")
+		case '\t':
+			b.WriteString("&#x9;")
+		default:
+			b.WriteRune(c)
+		}
+	}
+	return b.String()
+}
+
+func renderScoped(r *hx.Rand, sb *strings.Builder, f []*Tree, scope map[string]string) {
+	for _, t := range f {
+		switch t.Kind {
+		case "text":
+			sb.WriteString(escText(t.Text))
+			continue
+		case "elem":
+		default:
+			continue
+		}
+		inner := map[string]string{}
+		for k, v := range scope {
+			inner[k] = v
+		}
+		sb.WriteString("<" + t.Name.Local)
+		if t.Name.Space != "" {
+			sb.WriteString(" xmlns=\"" + escText(t.Name.Space) + "\"")
+		}
+		local := map[string]string{} // prefixes declared on this element
+		seen := map[string]bool{}
+		var late []string // declarations written after their use
+		for _, a := range t.Attrs {
+			if a.Name.Local == "xmlns" || seen[a.Name.Space+" "+a.Name.Local] {
+				continue
+			}
+			seen[a.Name.Space+" "+a.Name.Local] = true
+			switch a.Name.Space {
+			case "":
+				sb.WriteString(" " + a.Name.Local + "=\"" + escText(a.Value) + "\"")
+				continue
+			case XMLURL:
+				sb.WriteString(" xml:" + a.Name.Local + "=\"" + escText(a.Value) + "\"")
+				continue
+			}
+			pfx := ""
+			for _, p := range scopedPrefixes { // fixed order: the run is a function of the seed
+				if u, bound := inner[p]; bound && u == a.Name.Space && (local[p] != "" || r.Bool()) {
+					pfx = p // inherited, or declared here already
+				}
+			}
+			if pfx == "" {
+				// pick a prefix not yet declared on this element for another name space
+				for try := 0; try < 8 && pfx == ""; try++ {
+					p := scopedPrefixes[r.Intn(len(scopedPrefixes))]
+					if u, taken := local[p]; !taken || u == a.Name.Space {
+						pfx = p
+					}
+				}
+				if pfx == "" {
+					continue
+				}
+				if local[pfx] == "" {
+					local[pfx] = a.Name.Space
+					inner[pfx] = a.Name.Space
+					decl := " xmlns:" + pfx + "=\"" + escText(a.Name.Space) + "\""
+					if r.Bool() {
+						sb.WriteString(decl)
+					} else {
+						late = append(late, decl)
+					}
+				}
+			}
+			sb.WriteString(" " + pfx + ":" + a.Name.Local + "=\"" + escText(a.Value) + "\"")
+		}
+		for _, d := range late {
+			sb.WriteString(d)
+		}
+		sb.WriteString(">")
+		renderScoped(r, sb, t.Kids, inner)
+		sb.WriteString("</" + t.Name.Local + ">")
 	}
 }
